@@ -982,12 +982,15 @@ where
         if self.state != CollectorState::InPixelData {
             // skip until we reach the pixel data
 
+            // whether native pixel data was found instead
+            let mut native = false;
             self.skip_until(|token| {
                 match token {
                     // catch either native pixel data
                     LazyDataToken::ElementHeader(header)
                         if header.tag == tags::PIXEL_DATA && header.length().is_defined() =>
                     {
+                        native = true;
                         true
                     }
                     // or start of pixel data sequencce
@@ -997,6 +1000,12 @@ where
             })?;
 
             self.state = CollectorState::InPixelData;
+
+            if native {
+                // no offset table;
+                // leave the value in place for `read_next_fragment`
+                return Ok(None);
+            }
         }
 
         let parser = if !self.source.has_parser() {
